@@ -581,6 +581,8 @@ pub fn rw_for(r: &R, e: &Expr) -> Option<String> {
     Some(s)
 }
 
+fn norm_ws(s: &str) -> String { s.chars().filter(|c| !c.is_whitespace()).collect() }
+
 fn first_line(s: &str) -> String {
     s.lines().next().unwrap_or("").to_string()
 }
@@ -653,6 +655,13 @@ pub fn rw_option(r: &R, e: &Expr) -> Option<String> {
             let d = r.expr(&mc.args[0]);
             let p = r.pat(&cl.inputs[0]);
             let b = r.expr(&cl.body);
+            // `map_or_result="<receiver text>|..."`: receivers that are Results (std: Result::map_or(default, f) = match { Ok(v) => f(v), Err(_) => default })
+            let recv_src = norm_ws(&r.verb(mc.receiver.span()));
+            let is_result = r.opts.get("map_or_result").map(|l| l.split('|').any(|t| norm_ws(t) == recv_src)).unwrap_or(false);
+            if is_result {
+                r.note("R3 Result::map_or -> match");
+                return Some(format!("(match {} {{ Ok({}) => {}, Err(_) => {} }})", recv, p, b, d));
+            }
             Some(format!("(match {} {{ Some({}) => {}, None => {} }})", recv, p, b, d))
         }
         _ => None,
